@@ -340,7 +340,7 @@ def jobs(tier):
     if q:
         combos = [(f, b, 2, 1) for f in ("oid", "path") for b in (0, 1)] + [("oid", 1, 3, 0), ("path", 1, 3, 0)]
     else:
-        combos = [(f, b, 2, 2) for f in ("oid", "path", "mixed", "oid-ci") for b in (0, 1)] + [(f, 1, 3, 1) for f in ("oid", "path")]
+        combos = [(f, b, 2, 2) for f in ("oid", "path") for b in (0, 1)] + [(f, 1, 2, 1) for f in ("mixed", "oid-ci")] + [(f, 1, 3, 1) for f in ("oid", "path")]
     for f, b, n, sl in combos:
         for side in (0, 1):
             for op in OPS:
